@@ -9,6 +9,28 @@ use ts_rs::verif;
 use super::fsutil::{clear_dir, files_only, snapshot};
 use crate::{guarded, rng::Rng, Args, Log, TypeEntry};
 
+/// Every property name and string literal of a type, as swc cooked them.
+pub fn strings_of(ty: &tsmodel::Ty, out: &mut Vec<String>) {
+    use tsmodel::Ty;
+    match ty {
+        Ty::LitStr(s) => out.push(s.clone()),
+        Ty::Array(t) => strings_of(t, out),
+        Ty::Tuple(ts) | Ty::Union(ts) | Ty::Inter(ts) => ts.iter().for_each(|t| strings_of(t, out)),
+        Ty::Object(o) => {
+            for p in &o.props {
+                out.push(p.name.clone());
+                strings_of(&p.ty, out);
+            }
+            for i in &o.index {
+                strings_of(&i.key, out);
+                strings_of(&i.val, out);
+            }
+        }
+        Ty::Ref(_, a) => a.iter().for_each(|t| strings_of(t, out)),
+        _ => {}
+    }
+}
+
 pub fn describe_file(text: &str) -> Value {
     match tsmodel::parse::parse_module(text) {
         Err(e) => json!({"parse_error": e, "text": text}),
@@ -25,7 +47,9 @@ pub fn describe_file(text: &str) -> Value {
                     tsmodel::Item::Alias(d) => {
                         items.push(if d.exported { "export-type".to_string() } else { "type".to_string() });
                         let free: Vec<String> = d.free_names().into_iter().collect();
-                        decls.push(json!({"name": d.name, "free": free, "params": d.params.iter().map(|p| p.0.clone()).collect::<Vec<_>>(),
+                        let mut strings = vec![];
+                        strings_of(&d.body, &mut strings);
+                        decls.push(json!({"name": d.name, "free": free, "strings": strings, "params": d.params.iter().map(|p| p.0.clone()).collect::<Vec<_>>(),
                             "has_docs": !d.docs.is_empty(), "unsupported": d.body.has_unsupported()}));
                     }
                     tsmodel::Item::Other(k) => items.push(format!("other:{k}")),
